@@ -441,6 +441,21 @@ func c11Program(c *fw.Ctx, d *dataset) genQ {
 			}
 			g.SQL = g.SQL[:pos] + fmt.Sprintf(" WHERE s <> '%s'", lit) + g.SQL[pos:]
 		}
+	case 3:
+		// FROM-subquery that limits (and possibly orders) its rows; the outer level neither groups nor limits.
+		// Which rows an inner LIMIT keeps among ties is free, so only the number of rows is compared.
+		t := d.spec
+		f := t.Fields[0].Name
+		k := 1 + r.Intn(6)
+		inner := fmt.Sprintf("SELECT * FROM t GROUP BY s, n, b, period(%v)", t.Res)
+		if r.Intn(2) == 0 {
+			inner = "SELECT * FROM t GROUP BY s, n, b"
+		}
+		if r.Intn(3) != 0 {
+			inner += " ORDER BY " + f + []string{"", " DESC"}[r.Intn(2)]
+		}
+		inner += fmt.Sprintf(" LIMIT %d", k)
+		g = genQ{SQL: fmt.Sprintf("SELECT _points, %s FROM (%s)", f, inner), HasLimit: true}
 	case 1:
 		// FROM subquery
 		t := d.spec
